@@ -3,7 +3,10 @@
 Monitor: the probe model `probe` (M1) writes a CLOSED-FORM function of its calibrated
 parameters (p, q[0], q[1]), of the per-target input argument k and of the readout time into
 the pixel / signal / image buckets (three different forms), and logs every call.  Hence the
-simulated data of any candidate are known to the harness without pyxel.
+simulated data of any candidate are known to the harness without pyxel.  In a third of the cases the
+probe is stochastic (it adds noise drawn from the generator that the declared pipeline seed controls);
+the noise term is then observed once by re-simulating the pipeline in exposure mode with the declared
+seed: a fitness, champion or simulated node computed on another realisation is not reproducible.
 
 Oracle (M8, NumPy only): fitness(x) = sum over targets of f(sim_p[result range],
 target_p[target range], w_p) for the three built-in figures of merit.
@@ -15,8 +18,10 @@ Observed and compared:
      reported parameters, every island and every evolution;
  (c) `/simulated/<bucket>`, `/full_size/simulated_<bucket>` vs the closed form at the last
      champions, `/simulated/target`, `/full_size/target` vs the target files;
- (d) champion fitness never increases from one evolution to the next on any island;
- (e) fit-range pairs selecting regions of different extent, or exceeding the target, are
+ (d) champion fitness never increases from one evolution to the next on any island (sade, sga and
+     nlopt with every selection x replacement pair, also the non-elitist ones);
+ (e) fit-range pairs selecting regions of different extent, or exceeding the target (also when the
+     result range exceeds the detector alike, so that both regions are clipped to one extent), are
      rejected before any probe call; equal-extent pairs (also shifted) are accepted.
 """
 from __future__ import annotations
@@ -34,11 +39,13 @@ REGISTER = True
 TECHNIQUE = ("runtime monitoring: closed-form probe model + probe call log; reported fitness, champion, simulated and "
              "target nodes of real calibrations compared with an independent NumPy recomputation")
 RULE = ("random calibration set-ups: 1-3 target files (npy/fits/txt, datacubes npy) each with its own input argument, "
-        "fit-range pairs of the classes equal / shifted / unequal extent / target out of bounds / result beyond the "
-        "detector / absent (+ time-axis classes for datacubes), no weights / weight vector / weight files, single- and "
+        "fit-range pairs of the classes equal / shifted / unequal extent / target out of bounds / target and result out "
+        "of bounds alike / result beyond the detector / absent (+ time-axis classes for datacubes), no weights / weight vector / weight files, single- and "
         "multi-readout targets, pixel/signal/image result, the three built-in fitness functions, 1-3 calibrated "
         "components (scalar, vector, logarithmic); 'direct' cases evaluate problem.fitness on generated decision "
-        "vectors, 'calibration' cases run pyxel.run_mode (sade/sga, 1-2 islands, 2-3 evolutions); every case but the "
+        "vectors, 'calibration' cases run pyxel.run_mode (sade / sga / nlopt with five derivative-free solvers and all "
+        "selection x replacement pairs, 1-2 islands, 2-6 evolutions); deterministic or seeded stochastic pipeline, "
+        "with or without a declared pipeline seed; every case but the "
         "'absent' class is non-trivial; distinct = distinct case specifications")
 ASSUMPTIONS = [
     "the probe stands for an arbitrary deterministic pipeline: fitness bookkeeping does not depend on what the model does",
@@ -46,6 +53,10 @@ ASSUMPTIONS = [
     "absent fit ranges (None) are outside the statement: their outcome is counted, never judged",
     "/full_size/target is only judged when the target files have the detector's shape",
     "fitness sums are compared with a relative tolerance of 1e-12; node contents with 1e-12 (targets: exactly)",
+    "re-simulating = running the same pipeline with the declared pipeline_seed (exposure mode); a stochastic pipeline "
+    "is only generated together with a declared seed (without one nothing is reproducible and nothing could be judged)",
+    "a calibration that pygmo itself aborts under an NLopt solver (next start point one ulp outside the box) is counted, "
+    "not judged",
 ]
 REQUIRED_COUNTERS = [
     "direct_cases", "direct_evals_compared", "calibrations_finished", "champion_fitness_compared",
@@ -435,7 +446,7 @@ def gen_case(rng, kind: str, g: int) -> dict:
     if kind == "calib":
         case["algo"] = gen_algo(rng, sum(2 if par["name"] == "q" else 1 for par in case["layout"]))
         case["islands"] = 1 + (g % 2)
-        case["evolutions"] = rng.randint(2, 3) if case["algo"]["type"] != "nlopt" else rng.randint(2, 5)
+        case["evolutions"] = rng.randint(2, 3) if case["algo"]["type"] != "nlopt" else rng.randint(3, 6)
         case["pygmo_seed"] = rng.randint(0, 100000)
         case["best"] = rng.choice([None, None, 2, 3])
         case["topology"] = rng.choice(["unconnected", "ring", "fully_connected"])
@@ -449,18 +460,24 @@ def gen_algo(rng, dim: int) -> dict:
     """One of the three algorithm families with randomised options (tiny budgets: the fitness bookkeeping and the
     champion reporting are observed, not the convergence)."""
     u = rng.random()
-    if u < 0.45:
+    if u < 0.35:
         return {"type": "sade", "generations": rng.randint(1, 2), "population_size": rng.randint(7, 8),
                 "variant": rng.choice([2, 2, rng.randint(1, 18)]), "variant_adptv": rng.randint(1, 2),
                 "memory": rng.random() < 0.3}
-    if u < 0.65:
+    if u < 0.55:
         return {"type": "sga", "generations": rng.randint(1, 2), "population_size": rng.randint(7, 8)}
     # a local optimiser applied to one individual of the population (selection), the result re-inserted
     # (replacement): every combination of best / worst / random is a documented configuration
+    solver = rng.choice(NLOPT_SOLVERS)
+    # Powell's solvers need 2 * dim + 3 evaluations to build their model (fewer: NaN candidates, property C10)
+    least = 2 * dim + 3 if solver in ("bobyqa", "newuoa_bound") else 2
+    # all nine selection x replacement pairs; the pairs that can overwrite the best individual of the population
+    # with a worse one (selection other than best, replacement other than worst) are drawn twice as often: only
+    # there the best individual ever seen and the best of the current population differ
     return {"type": "nlopt", "generations": 1, "population_size": rng.randint(2, 6),
-            "nlopt_solver": rng.choice(NLOPT_SOLVERS), "maxeval": rng.randint(2 * dim + 3, 2 * dim + 12),
-            "xtol_rel": 1e-8, "nlopt_selection": rng.choice(["best", "worst", "random"]),
-            "replacement": rng.choice(["best", "worst", "random"])}
+            "nlopt_solver": solver, "maxeval": least + rng.choice([0, 0, 1, 2, 3, 5, 8]),
+            "xtol_rel": 1e-8, "nlopt_selection": rng.choice(["best", "worst", "random", "worst", "random"]),
+            "replacement": rng.choice(["best", "worst", "random", "best", "random"])}
 
 
 def is_shifted(case: dict) -> bool:
@@ -1036,7 +1053,7 @@ def plan(tier, seed):
     specs, g_direct, g_calib = [], 7 * seed, 5 * seed
     for s in range(16):
         if tier == "quick":
-            nd, nc, ne = 28, 4, 10
+            nd, nc, ne = 24, 5, 10
         else:
             nd, nc, ne = 150, 38, 6
         specs.append({"shard": s, "seed": seed, "kind": "mixed", "n": nd + nc, "n_direct": nd, "n_eval": ne,
